@@ -268,7 +268,7 @@ func ruleC03(p *Program, r *Run) {
 				if known, prev := rel(o); !known || !prev {
 					okGuard = false
 				}
-			case o.Ev.Kind == "HOLE" && o.Ev.Callee != nil && o.Ev.Callee.Name() == "dataSourceSQL", strings.HasPrefix(o.Ev.Frame, "dataSourceSQL@"):
+			case o.Ev.Kind == "HOLE" && o.Ev.Callee != nil && fnName(o.Ev.Callee) == "dataSourceSQL", strings.HasPrefix(o.Ev.Frame, "dataSourceSQL@"):
 				sawSource = true
 				if known, prev := rel(o); !known || prev {
 					okGuard = false
@@ -327,7 +327,7 @@ func ruleC03(p *Program, r *Run) {
 		if !ok || len(call.Args) != 3 {
 			return true
 		}
-		if f := Callee(info, call); f == nil || f.Name() != "writeExpression" {
+		if f := Callee(info, call); f == nil || fnName(f) != "writeExpression" {
 			return true
 		}
 		ctxObj := objOf(info, call.Args[0])
